@@ -165,6 +165,27 @@ def replay_gj(n, nb):
                                                                     exp)):
                 return dict(reproduced=True, A=A, B=Bm, returned=ret,
                             observed=res, expected=exp)
+        # non-singular upper-triangular systems whose last pivot is tiny
+        # (the forward phase never looks at the last pivot)
+        for t in (1e-13, 3e-14, 1e-15, -1e-13):
+            A = [[float(1 + ((i + j) % 3)) if j > i else
+                  (1.0 if j == i else 0.0) for j in range(n)]
+                 for i in range(n)]
+            A[n - 1][n - 1] = t
+            X = [[float(1 + ((i + 2 * c) % 4)) for c in range(nb)]
+                 for i in range(n)]
+            Bm = [[sum(A[i][k] * X[k][c] for k in range(n))
+                   for c in range(nb)] for i in range(n)]
+            m = []
+            for i in range(n):
+                m += A[i] + Bm[i]
+            res = [7.0] * (n * nb + 1)
+            ret = mod.gj_solve(m, n, nb, res)
+            exp = [X[i][c] for i in range(n) for c in range(nb)] + [7.0]
+            if ret != 0.0 or any(abs(a - b) > 1e-6 for a, b in zip(res,
+                                                                    exp)):
+                return dict(reproduced=True, A=A, B=Bm, returned=ret,
+                            observed=res, expected=exp)
         return dict(reproduced=False)
     return rp
 
@@ -312,7 +333,7 @@ def task_gj(ctx, repo, m, n, nb):
     for i, x in enumerate(lp):
         if isinstance(x, _ast.For) and isinstance(x.target, _ast.Name):
             loops.setdefault(x.target.id, i)
-    need = ('rr', 'rbr')
+    need = ('rr', 'rbr', 'rrcol')
     if any(k not in loops for k in need):
         raise VCError('gj_solve: loop structure changed (no %s loop)' %
                       [k for k in need if k not in loops])
@@ -374,6 +395,9 @@ def task_gj(ctx, repo, m, n, nb):
             # (2^(n(n-1)/2) paths otherwise); from here on paths fork
             ex.merge = False
             return
+        if k == loops['rrcol'] and item == n - 1:
+            env['__fwd_done__'] = True
+            return
         if k == loops['rr']:
             cut(ex, st, pattern_fwd(env['rrcol'], env['rr']), [],
                 'fwd.%d.%d' % (env['rrcol'], env['rr']))
@@ -400,6 +424,14 @@ def task_gj(ctx, repo, m, n, nb):
                 done.append(rb)
             else:
                 env['__anyskip__'] = True
+                # a row may be left un-normalised only when its diagonal
+                # entry is exactly zero (otherwise a non-singular system
+                # would be returned unsolved with status 0)
+                dv = mm[nt * rb + rb]
+                obs.append(Obligation(
+                    'skip_only_exact_zero.%d' % rb, list(st.pc),
+                    S.to_z3(S.cmp('==', dv, 0)) if S.is_sym(dv) else
+                    z3.BoolVal(dv == 0), W))
             env['__done__'] = done
             for r in done:
                 ones.append((r, r))
@@ -433,6 +465,15 @@ def task_gj(ctx, repo, m, n, nb):
         in01 = (not S.is_sym(v)) and v in (0, 1)
         obs.append(Obligation('ret.%d.in01' % i, o.pc, z3.BoolVal(in01), W))
         if v != 0:
+            if o.state.env.get('__fwd_done__'):
+                # status 1 out of back substitution: only for a singular
+                # (upper-triangular, zero on the diagonal) matrix
+                mm = o.state.env['m']
+                ds = [mm[nt * r + r] for r in range(n)]
+                g = z3.Or([S.to_z3(S.cmp('==', d, 0)) if S.is_sym(d) else
+                           z3.BoolVal(d == 0) for d in ds])
+                obs.append(Obligation('ret.%d.nonzero_only_singular' % i,
+                                      o.pc, g, W))
             continue
         fin = o.state.env['result']
         # frame: the guard cell after n*nb is untouched
@@ -667,7 +708,8 @@ def eigen_decomposition(ctx, repo, mc, run, M):
                 obs.append(Obligation(
                     'AV=Vd.%d.%d.%d' % (n_, i, j), o.pc, S.to_z3(g)
                     if S.is_sym(g) else z3.BoolVal(bool(g)), W,
-                    extra=dict(backends=['nf', 'z3'])))
+                    extra=dict(backends=['nf', 'z3', 'cvc5'],
+                               timeout_ms=240000)))
 
     def rp(model, ob):
         from pyvc.calc import model_float
